@@ -8,17 +8,18 @@ REWRITES = [
     ("io/blocking.rs",
      "use super::socket::{TcpListener, TcpListenerApi, UdpSocket, UdpSocketApi};",
      "use mcshim::net::{TcpListener, TcpListenerApi, UdpSocket, UdpSocketApi};"),
-    # the per-message read deadline of the blocking provider runs on the
-    # virtual clock (slow-client deviations advance it)
-    ("io/blocking.rs",
-     "use std::time::{Duration, Instant};",
-     "use mcshim::time::{Duration, Instant};"),
     ("io/tokio.rs",
      "use tokio::net::{TcpListener, TcpStream};",
      "use mcshim::anet::{TcpListener, TcpStream};"),
     ("io/tokio.rs",
      "use super::socket::{AsyncUdpSocket, AsyncUdpSocketApi};",
      "use mcshim::anet::{AsyncUdpSocket, AsyncUdpSocketApi};"),
+]
+
+# the per-message read deadline of the blocking provider runs on the virtual
+# clock (slow-client deviations advance it)
+REDIRECTS = [
+    ("io/blocking.rs", ["time"]),
 ]
 
 APPENDS = {
